@@ -152,8 +152,8 @@ def evaluate(case):
     tie['rhs'] = float(np.max(np.abs(m.rhs - c * v)) / max(np.max(np.abs(m.rhs)), 1e-300))
     tie['residual'] = float(np.max(np.abs(m.Z @ m.current - m.rhs)) / max(np.max(np.abs(m.rhs)), 1e-300))
     pz0 = float(np.sum(0.5 * ((Z0 @ m.current) / c * np.conj(m.current)).real))
-    identity = abs(psrc - pl - pz0) / app
-    tie['power_attr'] = abs(psrc - P) / app
+    identity = float(abs(psrc - pl - pz0) / app)
+    tie['power_attr'] = float(abs(psrc - P) / app)
     pr = prad_ratio(m, ground) * P
     return dict(dev=(P - pl - pr) / app, app=app, P=P, loads=pl, rad=pr, identity=identity, tie=tie,
                 cond=antgen.cond(m), lossy=env in ('real1', 'real2', 'radials'))
